@@ -440,6 +440,8 @@ type c15WaitStream struct {
 	equiv     []c15EquivOut
 	leftovers int
 	dir       string
+	wallWait  float64
+	wallAll   float64
 }
 
 func c15Pool(n, workers int, f func(i int)) {
@@ -480,7 +482,7 @@ func c15GenWaitCases(c *vh.Ctx, file string) []c15WaitCase {
 		w.Stdin, w.Place, w.Note = k, "witness-control", ""
 		add(w)
 	}
-	add(c15BuildWait(8, 8, 0, "io.Pipe:never-written", "timeout", 150, false, file))  // print | cmd does not inherit stdin: no hang
+	add(c15BuildWait(8, 8, 0, "io.Pipe:never-written", "timeout", 150, false, file)) // print | cmd does not inherit stdin: no hang
 	add(c15BuildWait(9, 0, 4, "file:os.Pipe-kept-open", "cancel-timer", 120, true, file))
 	add(c15BuildWait(10, 7, 2, "file:os.Pipe-kept-open", "timeout", 120, false, file)) // cat reads the kept-open pipe itself
 	add(c15BuildWait(11, 1, 0, "io.Pipe:never-written", "pre", 0, false, file))        // nothing is started under a done context
@@ -520,6 +522,7 @@ func c15StartWaitStream(c *vh.Ctx) func() *c15WaitStream {
 	ws.outs = make([]c15WaitOut, len(cases))
 	ws.equiv = equiv
 	done := make(chan struct{})
+	t0 := time.Now()
 	go func() {
 		defer close(done)
 		c15Pool(len(cases), 12, func(i int) {
@@ -541,8 +544,10 @@ func c15StartWaitStream(c *vh.Ctx) func() *c15WaitStream {
 			r := c15RunWait(wc, 3*bound)
 			o.re = &r
 		}
-		c15Pool(len(ws.equiv), 8, func(i int) { c15RunEquiv(&ws.equiv[i]) })
 		ws.leftovers = c15KillLeftovers()
+		ws.wallWait = time.Since(t0).Seconds()
+		c15Pool(len(ws.equiv), 8, func(i int) { c15RunEquiv(&ws.equiv[i]) })
+		ws.wallAll = time.Since(t0).Seconds()
 		os.RemoveAll(dir)
 	}()
 	return func() *c15WaitStream { <-done; return ws }
@@ -598,8 +603,89 @@ func c15ReportWaitStream(c *vh.Ctx, ws *c15WaitStream) {
 				Case: wc, Got: g, Want: want})
 		}
 	}
+	c15WaitCorrespondence(c, ws)
 	c15ReportEquiv(c, ws.equiv)
 	if ws.leftovers > 0 {
 		c.Hit("wait:leftover-children-killed-at-the-end")
+	}
+	c.Note(fmt.Sprintf("command streams (run in the background): %d waits in %.1fs, then %d never-cancelled comparisons, %.1fs in all; %d leftover children killed",
+		len(ws.outs), ws.wallWait, len(ws.equiv), ws.wallAll, ws.leftovers))
+}
+
+// c15ModelCopy maps a case to the model's description of the goroutine that copies Config.Stdin to the command
+func c15ModelCopy(wc c15WaitCase) (string, int) {
+	if !wc.Inherits || strings.HasPrefix(wc.Stdin, "file:") {
+		return "none", 0
+	}
+	switch wc.Stdin {
+	case "io.Pipe:never-written":
+		return "blocked", 0
+	case "slow:50ms":
+		return "yields", 50
+	case "slow:4s":
+		return "yields", 4000
+	}
+	return "yields", 0 // bytes.Reader, strings.Reader, failing reader: the copy is over at once
+}
+
+// c15WaitCorrespondence compares each run of the wait stream with the Lean wait-state model (GoawkModel.C15Wait): the
+// model says `stuck` exactly for the runs that returned only when the harness released a reader blocked in Read, and for
+// the others its bound on the overrun (max WaitDelay d) is within the harness's wall bound.
+func c15WaitCorrespondence(c *vh.Ctx, ws *c15WaitStream) {
+	if !c.HasLean() {
+		return
+	}
+	b2i := func(b bool) int {
+		if b {
+			return 1
+		}
+		return 0
+	}
+	var reqs []string
+	var idx []int
+	for i, o := range ws.outs {
+		if o.r.Skipped || o.r.Hung {
+			continue
+		}
+		kind, d := c15ModelCopy(o.wc)
+		// exec.Cmd.Start under a context that is already done fails with the context's error, which the interpreter prints
+		started := o.wc.Ctx != "pre" && o.wc.Ctx != "deadline-past" &&
+			!strings.Contains(o.r.ErrOut, context.Canceled.Error()) && !strings.Contains(o.r.ErrOut, context.DeadlineExceeded.Error())
+		reqs = append(reqs, fmt.Sprintf("wait %s %d %d %d %d", kind, d, b2i(o.wc.Wait == "system(trap TERM;sleep)"), b2i(started), o.wc.DelayMs))
+		idx = append(idx, i)
+	}
+	ans := c.LeanBatch(reqs)
+	for j, a := range ans {
+		o := ws.outs[idx[j]]
+		c.Trace()
+		c.Hit("correspondence:wait-state")
+		f := strings.Fields(a)
+		stuckObserved := o.r.Released && o.r.StdinBlocked && !o.r.NeededKill
+		metBound := !o.r.Released || (o.re != nil && !o.re.Released && !o.re.Hung)
+		bad := ""
+		switch {
+		case len(f) == 2 && f[0] == "stuck":
+			if !stuckObserved {
+				bad = "the model says the Wait never returns; the real call returned without the reader being released"
+			}
+		case len(f) == 3 && (f[0] == "err" || f[0] == "fin"):
+			clk, _ := strconv.Atoi(f[1])
+			overrun := clk - o.wc.DelayMs
+			if clk == 0 {
+				overrun = 0
+			}
+			if float64(overrun) <= 1000*o.wc.BoundS-500 && !metBound {
+				bad = fmt.Sprintf("the model says the call returns at most %d ms after the context is done; the real call did not return within the bound", overrun)
+			}
+			if stuckObserved && float64(overrun) <= 1000*o.wc.BoundS-500 {
+				bad = fmt.Sprintf("the real call returned only when the blocked reader was released; the model says it returns at most %d ms after the context is done", overrun)
+			}
+		default:
+			bad = "unexpected answer of the driver"
+		}
+		if bad != "" {
+			c.Fail(vh.Failure{Kind: "correspondence", What: "wait state: " + bad, Case: map[string]interface{}{"case": o.wc, "request": reqs[j]}, Got: a,
+				Want: fmt.Sprintf("released=%v stdinBlockedInRead=%v late=%.2fs afterRelease=%.2fs err=%v stderr=%q", o.r.Released, o.r.StdinBlocked, o.r.Late, o.r.AfterRelease, o.r.Err, c15Trunc(o.r.ErrOut))})
+		}
 	}
 }
